@@ -36,12 +36,15 @@ Record st := {
   sl : spc;
   counter : nat;       (* syncPipelinedRequestNext *)
   recv : nat;          (* RollForward/RollBackward messages handled *)
-  cblog : list upd     (* callbacks invoked *)
+  cblog : list upd;    (* callbacks invoked: RollForwardFunc / pipeline ApplyFunc / RollBackwardFunc, merged *)
+  pipe : bool;         (* config.Pipeline != nil (constant) *)
+  inflight : list upd  (* blocks submitted to the block pipeline and not yet applied, in sequence order *)
 }.
 
 Inductive label :=
 | LSrvAwait | LSrvReply (u : upd)      (* server *)
 | LDeliver | LCb (u : upd) | LPush      (* recvLoop / handler *)
+| LApply (u : upd)                      (* block pipeline: ApplyFunc, in sequence order *)
 | LTake | LProc | LSendReq | LSendEnd.  (* syncLoop *)
 
 Definition tip_eqb (a b : tipT) := N.eqb (tslot a) (tslot b) && bytes_eqb (thash a) (thash b) && N.eqb (tblock a) (tblock b).
@@ -52,6 +55,8 @@ Definition upd_eqb (a b : upd) :=
   | _, _ => false
   end.
 
+Definition is_forward (u : upd) : bool := match u with RollForward _ _ _ => true | _ => false end.
+
 Section Limit.
 Variable limit : nat.                       (* config.PipelineLimit *)
 Definition L := Nat.max limit 1.             (* msgCount := max(c.config.PipelineLimit, 1) *)
@@ -61,35 +66,60 @@ Definition step (s : st) (l : label) : option st :=
   | LSrvAwait =>
       if (replied s <? sent s) && negb (awaited s) then
         Some {| sent := sent s; replied := replied s; awaited := true; inq := inq s ++ [Await]; hist := hist s ++ [Await];
-                dlv := dlv s; hp := hp s; rdy := rdy s; sl := sl s; counter := counter s; recv := recv s; cblog := cblog s |}
+                dlv := dlv s; hp := hp s; rdy := rdy s; sl := sl s; counter := counter s; recv := recv s; cblog := cblog s;
+                  pipe := pipe s; inflight := inflight s |}
       else None
   | LSrvReply u =>
       if replied s <? sent s then
         Some {| sent := sent s; replied := S (replied s); awaited := false; inq := inq s ++ [Reply u];
                 hist := hist s ++ [Reply u]; dlv := dlv s; hp := hp s; rdy := rdy s; sl := sl s;
-                counter := counter s; recv := recv s; cblog := cblog s |}
+                counter := counter s; recv := recv s; cblog := cblog s;
+                  pipe := pipe s; inflight := inflight s |}
       else None
   | LDeliver =>
       match hp s, inq s with
       | HIdle, Await :: r =>   (* handleAwaitReply: log only *)
           Some {| sent := sent s; replied := replied s; awaited := awaited s; inq := r; hist := hist s;
                   dlv := dlv s ++ [Await]; hp := HIdle; rdy := rdy s; sl := sl s; counter := counter s;
-                  recv := recv s; cblog := cblog s |}
+                  recv := recv s; cblog := cblog s;
+                  pipe := pipe s; inflight := inflight s |}
       | HIdle, Reply u :: r =>
+          if pipe s && is_forward u then
+            (* handleRollForward with a pipeline: Pipeline.Submit, then signal ready at once *)
+            Some {| sent := sent s; replied := replied s; awaited := awaited s; inq := r; hist := hist s;
+                    dlv := dlv s ++ [Reply u]; hp := HReady; rdy := rdy s; sl := sl s; counter := counter s;
+                    recv := S (recv s); cblog := cblog s;
+                    pipe := pipe s; inflight := inflight s ++ [u] |}
+          else
           Some {| sent := sent s; replied := replied s; awaited := awaited s; inq := r; hist := hist s;
                   dlv := dlv s ++ [Reply u]; hp := HCb u; rdy := rdy s; sl := sl s; counter := counter s;
-                  recv := S (recv s); cblog := cblog s |}
+                  recv := S (recv s); cblog := cblog s;
+                  pipe := pipe s; inflight := inflight s |}
       | _, _ => None
       end
   | LCb u' =>
       match hp s with
       | HCb u =>
-          if upd_eqb u' u then
+          (* handleRollBackward with a pipeline: Pipeline.WaitForDrain first - the callback runs
+             only when nothing submitted earlier is still in flight *)
+          if upd_eqb u' u && (negb (pipe s) || match inflight s with [] => true | _ => false end) then
             Some {| sent := sent s; replied := replied s; awaited := awaited s; inq := inq s; hist := hist s;
                     dlv := dlv s; hp := HReady; rdy := rdy s; sl := sl s; counter := counter s;
-                    recv := recv s; cblog := cblog s ++ [u] |}
+                    recv := recv s; cblog := cblog s ++ [u];
+                  pipe := pipe s; inflight := inflight s |}
           else None
       | _ => None
+      end
+  | LApply u' =>
+      match inflight s with
+      | u :: r =>
+          if upd_eqb u' u then
+            Some {| sent := sent s; replied := replied s; awaited := awaited s; inq := inq s; hist := hist s;
+                    dlv := dlv s; hp := hp s; rdy := rdy s; sl := sl s; counter := counter s;
+                    recv := recv s; cblog := cblog s ++ [u];
+                    pipe := pipe s; inflight := r |}
+          else None
+      | [] => None
       end
   | LPush =>
       match hp s with
@@ -97,12 +127,14 @@ Definition step (s : st) (l : label) : option st :=
           if rdy s <? limit then   (* buffered send *)
             Some {| sent := sent s; replied := replied s; awaited := awaited s; inq := inq s; hist := hist s;
                     dlv := dlv s; hp := HIdle; rdy := S (rdy s); sl := sl s; counter := counter s;
-                    recv := recv s; cblog := cblog s |}
+                    recv := recv s; cblog := cblog s;
+                  pipe := pipe s; inflight := inflight s |}
           else match limit, sl s with
                | O, SWait =>       (* unbuffered: rendezvous with syncLoop's receive *)
                    Some {| sent := sent s; replied := replied s; awaited := awaited s; inq := inq s; hist := hist s;
                            dlv := dlv s; hp := HIdle; rdy := rdy s; sl := SGot; counter := counter s;
-                           recv := recv s; cblog := cblog s |}
+                           recv := recv s; cblog := cblog s;
+                  pipe := pipe s; inflight := inflight s |}
                | _, _ => None
                end
       | _ => None
@@ -112,7 +144,8 @@ Definition step (s : st) (l : label) : option st :=
       | SWait, S n =>
           Some {| sent := sent s; replied := replied s; awaited := awaited s; inq := inq s; hist := hist s;
                   dlv := dlv s; hp := hp s; rdy := n; sl := SGot; counter := counter s;
-                  recv := recv s; cblog := cblog s |}
+                  recv := recv s; cblog := cblog s;
+                  pipe := pipe s; inflight := inflight s |}
       | _, _ => None
       end
   | LProc =>
@@ -122,11 +155,13 @@ Definition step (s : st) (l : label) : option st :=
           | S n =>   (* syncPipelinedRequestNext--; continue *)
               Some {| sent := sent s; replied := replied s; awaited := awaited s; inq := inq s; hist := hist s;
                       dlv := dlv s; hp := hp s; rdy := rdy s; sl := SWait; counter := n;
-                      recv := recv s; cblog := cblog s |}
+                      recv := recv s; cblog := cblog s;
+                  pipe := pipe s; inflight := inflight s |}
           | O =>
               Some {| sent := sent s; replied := replied s; awaited := awaited s; inq := inq s; hist := hist s;
                       dlv := dlv s; hp := hp s; rdy := rdy s; sl := SSend L; counter := 0;
-                      recv := recv s; cblog := cblog s |}
+                      recv := recv s; cblog := cblog s;
+                  pipe := pipe s; inflight := inflight s |}
           end
       | _ => None
       end
@@ -135,7 +170,8 @@ Definition step (s : st) (l : label) : option st :=
       | SSend (S k) =>
           Some {| sent := S (sent s); replied := replied s; awaited := awaited s; inq := inq s; hist := hist s;
                   dlv := dlv s; hp := hp s; rdy := rdy s; sl := SSend k; counter := counter s;
-                  recv := recv s; cblog := cblog s |}
+                  recv := recv s; cblog := cblog s;
+                  pipe := pipe s; inflight := inflight s |}
       | _ => None
       end
   | LSendEnd =>
@@ -143,7 +179,8 @@ Definition step (s : st) (l : label) : option st :=
       | SSend O =>   (* c.syncPipelinedRequestNext = msgCount - 1 *)
           Some {| sent := sent s; replied := replied s; awaited := awaited s; inq := inq s; hist := hist s;
                   dlv := dlv s; hp := hp s; rdy := rdy s; sl := SWait; counter := L - 1;
-                  recv := recv s; cblog := cblog s |}
+                  recv := recv s; cblog := cblog s;
+                  pipe := pipe s; inflight := inflight s |}
       | _ => None
       end
   end.
@@ -155,9 +192,10 @@ Fixpoint run (s : st) (ls : list label) : option st :=
   end.
 End Limit.
 
-Definition init : st :=
+Definition init_p (p : bool) : st :=
   {| sent := 1; replied := 0; awaited := false; inq := []; hist := []; dlv := []; hp := HIdle; rdy := 0;
-     sl := SWait; counter := 0; recv := 0; cblog := [] |}.
+     sl := SWait; counter := 0; recv := 0; cblog := []; pipe := p; inflight := [] |}.
+Definition init : st := init_p false.
 
 Definition replies_of (l : list smsg) : list upd :=
   flat_map (fun m => match m with Reply u => [u] | Await => [] end) l.
@@ -166,8 +204,8 @@ Definition replies_of (l : list smsg) : list upd :=
    ev: SReq = the peer read a RequestNext; SAwait / SRep u = the peer sent a message;
    SCb u = a callback was invoked.  The model replays them: a request observation
    needs a send by syncLoop (fired through the canonical internal schedule). ---- *)
-Inductive ev := EReq | EAwait | ERep (u : upd) | ECb (u : upd).
-Record case := { c_limit : nat; c_evs : list ev }.
+Inductive ev := EReq | EAwait | ERep (u : upd) | ECb (u : upd) | EAp (u : upd).
+Record case := { c_limit : nat; c_pipe : bool; c_evs : list ev }.
 
 (* canonical internal schedule of the client side *)
 Definition internals : list label := [LDeliver; LPush; LTake; LProc; LSendEnd].
@@ -207,6 +245,11 @@ Fixpoint replay (limit fuel : nat) (s : st) (seen : nat) (evs : list ev) : bool 
             | Some s1 => replay limit f s1 seen r
             | None => try_internal
             end
+        | EAp u =>
+            match step limit s (LApply u) with
+            | Some s1 => replay limit f s1 seen r
+            | None => try_internal
+            end
         end
     end
   end.
@@ -215,5 +258,5 @@ Fixpoint replay (limit fuel : nat) (s : st) (seen : nat) (evs : list ev) : bool 
 Definition effective (limit : nat) : nat := match limit with O => 75 | _ => limit end.
 
 Definition check_case (c : case) : bool :=
-  replay (effective (c_limit c)) (40 * length (c_evs c) + 100) init 0 (c_evs c).
+  replay (effective (c_limit c)) (40 * length (c_evs c) + 100) (init_p (c_pipe c)) 0 (c_evs c).
 Definition mismatches := failing check_case.
